@@ -128,6 +128,78 @@ EXPECTED_BRANCHES += ['mem/{}/{}'.format(c, o) for c in (
     'cset/{}/{}'.format(c, o) for c in ('EmptySet', 'Strings', 'ComplexNumbers', 'RealNumbers',
                                         'Integers', 'IntervalProd', 'FiniteSet') for o in 'tf'] + [
     'call/{}/{}'.format(c, o) for c in ('complex', 'real', 'integers') for o in 'tf']
+# round 5: API strata (oracle only)
+EXPECTED_BRANCHES += [
+    'api/discr-attributes',
+    'api/element-astype/DiscretizedSpace',
+    'api/element-astype/NumpyTensorSpace',
+    'api/element-eq/DiscretizedSpace',
+    'api/element-eq/NumpyTensorSpace',
+    'api/element-eq/ProductSpace',
+    'api/element-from-power-space-element',
+    'api/element-real-imag-conj/DiscretizedSpace',
+    'api/element-real-imag-conj/NumpyTensorSpace',
+    'api/element-real-imag-conj/ProductSpace',
+    'api/field-of-field',
+    'api/grid-approx-contains',
+    'api/grid-approx-equals',
+    'api/grid-contains',
+    'api/grid-derived-members',
+    'api/grid-is-subgrid',
+    'api/interval-approx-equals',
+    'api/interval-approx-equals-other-ndim',
+    'api/interval-element',
+    'api/partition-approx-equals',
+    'api/partition-fromgrid',
+    'api/partition-index',
+    'api/pow-mul/DiscretizedSpace',
+    'api/pow-mul/NumpyTensorSpace',
+    'api/pow-mul/ProductSpace',
+    'api/pspace-attributes',
+    'api/set-contains-all-default/FiniteSet',
+    'api/set-element-default/CartesianProduct',
+    'api/set-element-default/ComplexNumbers',
+    'api/set-element-default/EmptySet',
+    'api/set-element-default/FiniteSet',
+    'api/set-element-default/Integers',
+    'api/set-element-default/IntervalProd',
+    'api/set-element-default/RealNumbers',
+    'api/set-element-default/SetIntersection',
+    'api/set-element-default/SetUnion',
+    'api/set-element-default/Strings',
+    'api/set-element-default/UniversalSet',
+    'api/set-element-member/CartesianProduct',
+    'api/set-element-member/ComplexNumbers',
+    'api/set-element-member/EmptySet',
+    'api/set-element-member/FiniteSet',
+    'api/set-element-member/Integers',
+    'api/set-element-member/IntervalProd',
+    'api/set-element-member/IntervalProd-1d-sequence',
+    'api/set-element-member/RealNumbers',
+    'api/set-element-member/SetUnion',
+    'api/set-element-member/Strings',
+    'api/set-element-member/UniversalSet',
+    'api/set-getitem-int/CartesianProduct',
+    'api/set-getitem-int/FiniteSet',
+    'api/set-getitem-int/SetIntersection',
+    'api/set-getitem-int/SetUnion',
+    'api/set-getitem-slice/CartesianProduct',
+    'api/set-getitem-slice/FiniteSet',
+    'api/set-getitem-slice/SetIntersection',
+    'api/set-getitem-slice/SetUnion',
+    'api/strings-contains-all/list',
+    'api/strings-contains-all/ndarray',
+    'api/strings-contains-all/ndarray-uneven-lengths',
+    'api/vector',
+    'api/weighting-equiv/NumpyTensorSpaceArrayWeighting',
+    'api/weighting-equiv/NumpyTensorSpaceConstWeighting',
+    'api/weighting-equiv/ProductSpaceArrayWeighting',
+    'api/weighting-equiv/ProductSpaceConstWeighting',
+    'api/weighting-equiv/const-vs-full-array',
+    'api/zero-one/DiscretizedSpace',
+    'api/zero-one/NumpyTensorSpace',
+    'api/zero-one/ProductSpace',
+]
 KNOWN_EXPLAINS_DISAGREEMENT = False
 
 
@@ -3177,6 +3249,459 @@ def run_set_membership(ctx):
             ctx.disagree({'kind': 'containsall', 'space': w}, got, ans)
 
 
+# ---------------------------------------------------------------------------
+# round 5: API strata — functions of the anchored classes that no other stream enters
+# (element() / __getitem__ / contains_all of plain sets, grid / partition / interval membership
+# and approximate equality, Weighting.equiv, element equality, element astype / real / imag /
+# conj, zero / one, space ** n and space * space, vector()); oracle only.
+
+def _api(ctx, name, thunk, what, rep=None):
+    """one oracle check of stratum `name`: `thunk()` must return True (a string describes the
+    failure); any exception is a failure"""
+    ctx.hit('api/' + name)
+    ctx.case(('api', name))
+    try:
+        ok = thunk()
+    except Exception as e:  # noqa
+        ok = 'raised {}: {}'.format(type(e).__name__, str(e)[:100])
+    if ok is not True and ok is not np.True_:
+        viol(ctx, 'api-wrong ' + name, '{}: {}'.format(what, ok),
+             dict({'kind': 'api', 'op': name}, **(rep or {})))
+
+
+def _veq(a, b):
+    """value equality of set elements (floats / strings / tuples / arrays)"""
+    if isinstance(a, np.ndarray) or isinstance(b, np.ndarray):
+        try:
+            return bool(np.array_equal(np.asarray(a), np.asarray(b)))
+        except Exception:  # noqa
+            return False
+    if isinstance(a, (tuple, list)) or isinstance(b, (tuple, list)):
+        return (isinstance(a, (tuple, list)) and isinstance(b, (tuple, list)) and
+                len(a) == len(b) and all(_veq(x, y) for x, y in zip(a, b)))
+    if a is None or b is None:
+        return a is b
+    return bool(a == b)
+
+
+def _dy_arr(rng, shape, cplx=False):
+    n = int(np.prod(shape)) if shape else 1
+    a = np.array([rng.randint(-8, 8) / 4.0 for _ in range(n)]).reshape(shape)
+    if cplx:
+        a = a + 1j * np.array([rng.randint(-8, 8) / 4.0 for _ in range(n)]).reshape(shape)
+    return a
+
+
+def api_spaces():
+    import odl
+    W = np.array([1.0, 2.0, 0.5])
+    return [('rn3', odl.rn(3)), ('rn3w2', odl.rn(3, weighting=2.0)), ('rn3W', odl.rn(3, weighting=W)),
+            ('rn22f32', odl.rn((2, 2), dtype='float32')), ('cn2', odl.cn(2)),
+            ('int3', odl.tensor_space(3, dtype='int64')),
+            ('ud3', odl.uniform_discr(0, 1, 3)), ('ud22c', odl.uniform_discr([0, 0], [1, 1], (2, 2),
+                                                                             dtype='complex128')),
+            ('P(rn3,2)', odl.ProductSpace(odl.rn(3), 2)),
+            ('P(rn2,rn3f32)', odl.ProductSpace(odl.rn(2), odl.rn(3, dtype='float32'))),
+            ('P(cn2,2)w', odl.ProductSpace(odl.cn(2), 2, weighting=[1.0, 2.0])),
+            ('P(P(rn2,2),ud3)', odl.ProductSpace(odl.ProductSpace(odl.rn(2), 2),
+                                                 odl.uniform_discr(0, 1, 3)))]
+
+
+def _rand_elem(space, rng, perturb=None):
+    """element with dyadic values; `perturb`: another element whose values are changed in one
+    entry"""
+    import odl
+    if isinstance(space, odl.ProductSpace):
+        return space.element([_rand_elem(c, rng) for c in space.spaces])
+    a = _dy_arr(rng, space.shape, cplx=np.dtype(space.dtype).kind == 'c')
+    if np.dtype(space.dtype).kind in 'iu':
+        a = np.round(a)
+    return space.element(a.astype(space.dtype))
+
+
+def _flat(x):
+    return np.array(flat_values(x))
+
+
+def run_api_strata(ctx):
+    import odl
+    import warnings
+    from odl.set import sets as M
+    from odl.space.npy_tensors import (NumpyTensorSpaceConstWeighting as CW,
+                                       NumpyTensorSpaceArrayWeighting as AW)
+    from odl.space.pspace import (ProductSpaceConstWeighting as PCW,
+                                  ProductSpaceArrayWeighting as PAW)
+    rng = ctx.rng
+    warnings.simplefilter('ignore')
+    nsets = 40 if ctx.quick else 250
+
+    # ---- A/B/C: element(), __getitem__, contains_all of plain sets
+    psets = [odl.EmptySet(), odl.UniversalSet(), odl.Strings(2), odl.Integers(), odl.RealNumbers(),
+             odl.ComplexNumbers(), odl.IntervalProd(0, 1), odl.IntervalProd([0, 0], [1, 2]),
+             odl.FiniteSet(1, 'a', 2.5),
+             odl.CartesianProduct(odl.RealNumbers(), odl.Strings(2), odl.Integers()),
+             odl.SetUnion(odl.Integers(), odl.Strings(2), odl.IntervalProd(0, 1)),
+             odl.SetIntersection(odl.RealNumbers(), odl.Integers(), odl.IntervalProd(0, 3))]
+    while len(psets) < nsets:
+        S = gen_pset(rng)
+        try:
+            describe_pset(S)
+        except ValueError:
+            continue                        # NumPy-scalar FiniteSets: finding C20-F14
+        psets.append(S)
+    leafcls = (M.EmptySet, M.UniversalSet, M.Strings, M.Integers, M.RealNumbers, M.ComplexNumbers,
+               odl.IntervalProd, M.FiniteSet)
+    for S in psets:
+        c = cls(S)
+        rep = {'space': repr(S)[:200]}
+
+        def default_elem():
+            try:
+                e = S.element()
+            except NotImplementedError:
+                return True                 # intersections / empty unions have no element()
+            except IndexError:
+                return True if _tree_has(S, lambda o: type(o) is M.FiniteSet and not o.elements) \
+                    else 'IndexError'
+            return True if _mem(S, e) == 't' else '{!r} is not in the set ({})'.format(e, _mem(S, e))
+        _api(ctx, 'set-element-default/' + c, default_elem,
+             '{!r}.element() must be a member'.format(S), rep)
+        cands = [targeted_val(rng, S) for _ in range(4)]
+        if S is psets[6]:
+            cands += [(0.5,), [0.25], 0.5]
+        for v in cands:
+            if _mem(S, v) != 't':
+                continue
+
+            def member_elem():
+                try:
+                    e = S.element(v)
+                except NotImplementedError:
+                    return True
+                except (ValueError, TypeError) as ex:
+                    # a union only asks its FIRST member set, which may be unable to convert
+                    return True if not isinstance(S, leafcls) else 'raised {}'.format(ex)
+                if _mem(S, e) != 't':
+                    return 'element({!r}) = {!r} is not in the set'.format(v, e)
+                if isinstance(S, leafcls) and not _veq(e, v):
+                    return 'element({!r}) = {!r} differs from the member offered'.format(v, e)
+                return True
+            seq1d = type(S) is odl.IntervalProd and S.ndim == 1 and isinstance(v, (tuple, list))
+            _api(ctx, 'set-element-member/' + c + ('-1d-sequence' if seq1d else ''), member_elem,
+                 '{!r}.element(member) must be that member'.format(S), rep)
+        if isinstance(S, (M.CartesianProduct, M.SetUnion, M.SetIntersection)) and len(S.sets) > 0:
+            n = len(S.sets)
+            i = rng.randrange(n)
+            a, b = sorted((rng.randint(0, n), rng.randint(0, n)))
+            _api(ctx, 'set-getitem-int/' + c, lambda: S[i] is S.sets[i] and S[i - n] is S.sets[i],
+                 '{!r}[{}] must be the member set'.format(S, i), rep)
+
+            def slice_ok():
+                sub = S[a:b]
+                want = type(S)(*S.sets[a:b])
+                if type(sub) is not type(S) or not (sub == want) or hash(sub) != hash(want):
+                    return '[{}:{}] gives {!r}, expected {!r}'.format(a, b, sub, want)
+                for _ in range(4):
+                    v = targeted_val(rng, S)
+                    if _mem(sub, v) != _mem(want, v):
+                        return 'membership of {!r} differs'.format(v)
+                return True
+            _api(ctx, 'set-getitem-slice/' + c, slice_ok, '{!r}[{}:{}]'.format(S, a, b), rep)
+        if type(S) is M.FiniteSet and S.elements:
+            n = len(S.elements)
+            i = rng.randrange(n)
+            _api(ctx, 'set-getitem-int/FiniteSet', lambda: _veq(S[i], S.elements[i]),
+                 '{!r}[{}]'.format(S, i), rep)
+            _api(ctx, 'set-getitem-slice/FiniteSet',
+                 lambda: S[1:] == odl.FiniteSet(*S.elements[1:]), '{!r}[1:]'.format(S), rep)
+            seq = [rng.choice(S.elements) for _ in range(3)] + ([gen_scalar(rng)] if rng.random() < .5
+                                                                else [])
+            seq = [x.item() if isinstance(x, np.generic) else x for x in seq]
+            _api(ctx, 'set-contains-all-default/FiniteSet',
+                 lambda: S.contains_all(seq) == all(_mem(S, x) == 't' for x in seq),
+                 '{!r}.contains_all({!r}) must be all(x in S)'.format(S, seq), rep)
+    for n in (1, 2, 3):
+        S = odl.Strings(n)
+        for words in (['ab', 'xy'], ['a', 'b', 'x'], ['abx'], ['ab', 'x']):
+            want = all(len(w) == n for w in words)
+            for form, arg in (('ndarray', np.array(words)), ('list', list(words))):
+                def call():
+                    r = S.contains_all(arg)
+                    return True if r is want or r == want else 'gives {} (all(x in S) is {})'.format(
+                        r, want)
+                uneven = len(set(len(w) for w in words)) > 1
+                _api(ctx, 'strings-contains-all/{}{}'.format(form, '-uneven-lengths' if uneven else ''),
+                     call, 'Strings({}).contains_all({!r})'.format(n, arg))
+    _api(ctx, 'field-of-field', lambda: odl.RealNumbers().field == odl.RealNumbers() and
+         odl.ComplexNumbers().field == odl.ComplexNumbers(), 'Field.field is the field itself')
+
+    # ---- D: grids
+    grids = [odl.uniform_grid(0, 1, 5), odl.uniform_grid([0, 0], [1, 2], (3, 5)),
+             odl.RectGrid([0, 1, 3], [2, 5]), odl.RectGrid([0.0], [1.0, 1.5], [-1, 0, 2, 2.5])]
+    for g in grids:
+        rep = {'space': repr(g)[:200]}
+        idx = tuple(rng.randrange(k) for k in g.shape)
+        pt = [float(v[i]) for v, i in zip(g.coord_vectors, idx)]
+        off = list(pt)
+        off[rng.randrange(g.ndim)] += 0.0625
+        _api(ctx, 'grid-contains', lambda: (pt in g) is True and (tuple(pt) in g) is True and
+             (np.array(pt) in g) is True and (off in g) is False and (pt + [0.0] in g) is False and
+             ([None] * g.ndim in g) is False and (g.ndim > 1 or (pt[0] in g) is True),
+             'grid point {} in {!r}, off-grid point {} not'.format(pt, g, off), rep)
+        _api(ctx, 'grid-approx-contains', lambda: g.approx_contains(off, 0.125) is True and
+             g.approx_contains(off, 0.03125) is False and g.approx_contains(pt, 0.0) is True,
+             'approx_contains of {} / {} in {!r}'.format(pt, off, g), rep)
+        g2 = odl.RectGrid(*[v.copy() for v in g.coord_vectors])
+        vecs = [v.copy() for v in g.coord_vectors]
+        vecs[0][-1] += 0.0625
+        g3 = odl.RectGrid(*vecs)
+        _api(ctx, 'grid-approx-equals', lambda: g.approx_equals(g, 0.0) is True and
+             bool(g.approx_equals(g2, 0.0)) is True and (g == g2) and
+             bool(g.approx_equals(g3, 0.0)) is False and not (g == g3) and
+             bool(g.approx_equals(g3, 0.125)) is True and bool(g3.approx_equals(g, 0.125)) is True and
+             g.approx_equals(odl.RealNumbers(), 1.0) is False,
+             'approx_equals(atol=0) must agree with == for {!r}'.format(g), rep)
+        sub = g[tuple(slice(None, None, 2) for _ in g.shape)]
+
+        def subgrid():
+            if not (g.is_subgrid(g) and sub.is_subgrid(g) and g.is_subgrid(g2)):
+                return 'not reflexive / strided subgrid rejected'
+            if sub.shape != g.shape and g.is_subgrid(sub):
+                return 'larger grid is a subgrid of its strided part'
+            if g3.is_subgrid(g) or not g3.is_subgrid(g, atol=0.125):
+                return 'atol handling'
+            return all(list(p) in g for p in sub.points())
+        _api(ctx, 'grid-is-subgrid', subgrid, 'is_subgrid of {!r}'.format(g), rep)
+        _api(ctx, 'grid-derived-members', lambda: (g.element() in g) and len(g) == g.shape[0] and
+             g.convex_hull().contains_set(g) and (g.mid_pt in g.convex_hull()) and
+             g.corner_grid().is_subgrid(g) and all(list(c) in g for c in g.corners()) and
+             all(list(q) in g for q in np.asarray(g)[:7]) and
+             g.convex_hull() == odl.IntervalProd(g.min_pt, g.max_pt),
+             'element / corners / points of {!r} are grid points inside the convex hull'.format(g),
+             rep)
+
+    # ---- E: interval products
+    for _ in range(6 if ctx.quick else 40):
+        d = rng.choice([1, 1, 2, 3])
+        lo = np.array([_dyq(rng, -2, 1) for _ in range(d)])
+        hi = lo + np.array([rng.choice([0.0, 0.5, 1.0, 2.0]) for _ in range(d)])
+        I = odl.IntervalProd(lo, hi)
+        J = odl.IntervalProd(lo.copy(), hi.copy())
+        K = odl.IntervalProd(lo, hi + 0.125)
+        rep = {'space': repr(I)}
+        _api(ctx, 'interval-approx-equals', lambda: I.approx_equals(I, 0.0) is True and
+             bool(I.approx_equals(J, 0.0)) and I == J and not bool(I.approx_equals(K, 0.0)) and
+             not (I == K) and bool(I.approx_equals(K, 0.25)) and bool(K.approx_equals(I, 0.25)) and
+             not bool(I.approx_equals(K, 0.0625)) and I.approx_equals(odl.RealNumbers(), 1.0) is False,
+             'approx_equals(atol=0) must agree with == for {!r}'.format(I), rep)
+        d2 = d % 3 + 1
+        I2 = odl.IntervalProd([0] * d2, [1] * d2)
+        _api(ctx, 'interval-approx-equals-other-ndim', lambda: not bool(I.approx_equals(I2, 9.0)) and
+             not bool(I2.approx_equals(I, 9.0)),
+             'interval products of different dimension are never approximately equal: {!r} vs '
+             '{!r}'.format(I, I2), rep)
+
+        def members():
+            e = I.element()
+            if e not in I or I.mid_pt not in I:
+                return 'element() / mid_pt not in the set'
+            if not all(list(c) in I for c in I.corners()):
+                return 'a corner is not in the set'
+            pt = [float(l + h) / 2 for l, h in zip(lo, hi)]
+            e2 = I.element(pt if d > 1 else pt[0])
+            if not _veq(np.atleast_1d(e2), np.array(pt)):
+                return 'element(member) = {!r}'.format(e2)
+            try:
+                I.element([float(h) + 1 for h in hi])
+                return 'element(non-member) did not raise'
+            except TypeError:
+                return True
+        _api(ctx, 'interval-element', members, 'element / mid_pt / corners of {!r}'.format(I), rep)
+
+    # ---- F: partitions
+    parts = [odl.uniform_partition(0, 1, 4), odl.uniform_partition([0, 0], [1, 2], (2, 4)),
+             odl.uniform_partition(0, 1, 4, nodes_on_bdry=True),
+             odl.nonuniform_partition([0, 1, 3], [2, 5, 6]),
+             odl.uniform_partition([0, 0], [1, 1], (3, 3), nodes_on_bdry=[True, (False, True)])]
+    for pa in parts:
+        rep = {'space': repr(pa)[:200]}
+        pb = odl.RectPartition(odl.IntervalProd(pa.min_pt.copy(), pa.max_pt.copy()),
+                               odl.RectGrid(*[v.copy() for v in pa.coord_vectors]))
+        pc = odl.RectPartition(odl.IntervalProd(pa.min_pt, pa.max_pt + 0.0625), pa.grid)
+        _api(ctx, 'partition-approx-equals', lambda: pa.approx_equals(pa, 0.0) is True and
+             bool(pa.approx_equals(pb, 0.0)) and pa == pb and hash(pa) == hash(pb) and
+             not bool(pa.approx_equals(pc, 0.0)) and not (pa == pc) and
+             bool(pa.approx_equals(pc, 0.125)) and pa.approx_equals(pa.grid, 1.0) is False,
+             'approx_equals(atol=0) must agree with == for {!r}'.format(pa), rep)
+
+        def index_ok():
+            pt = [float(l) + rng.randint(1, 15) / 16.0 * float(h - l)
+                  for l, h in zip(pa.min_pt, pa.max_pt)]
+            idx = pa.index(pt if pa.ndim > 1 else pt[0])
+            idx_t = idx if isinstance(idx, tuple) else (idx,)
+            if not all(0 <= i < n for i, n in zip(idx_t, pa.shape)):
+                return 'index {} out of range'.format(idx)
+            cell = odl.IntervalProd([v[i] for v, i in zip(pa.cell_boundary_vecs, idx_t)],
+                                    [v[i + 1] for v, i in zip(pa.cell_boundary_vecs, idx_t)])
+            if pt not in cell:
+                return 'point {} is not in cell {} = {!r}'.format(pt, idx, cell)
+            return len(pa) == pa.shape[0] and (pa.mid_pt in pa.set) and \
+                all(np.array_equal(a, b) for a, b in zip(pa.coord_vectors, pa.grid.coord_vectors)) \
+                and isinstance(pa.nodes_on_bdry, (bool, tuple)) and \
+                len(pa.nodes_on_bdry_byaxis) == pa.ndim and len(pa.is_uniform_byaxis) == pa.ndim
+        _api(ctx, 'partition-index', index_ok, 'index / mid_pt / coord_vectors of {!r}'.format(pa), rep)
+        if pa.is_uniform and all(n > 1 for n in pa.shape):
+            def fromgrid():
+                q = odl.uniform_partition_fromgrid(pa.grid)
+                q2 = odl.uniform_partition_fromgrid(pa.grid, min_pt=pa.min_pt, max_pt=pa.max_pt)
+                return q.grid == pa.grid and q.set.contains_set(pa.grid) and q2 == pa and \
+                    hash(q2) == hash(pa)
+            _api(ctx, 'partition-fromgrid', fromgrid,
+                 'uniform_partition_fromgrid(grid of {!r})'.format(pa), rep)
+
+    # ---- G: Weighting.equiv
+    A1 = np.array([2.0, 2.0, 2.0])
+    ws = [CW(2.0), CW(2.0), CW(3.0), CW(2.0, exponent=1.0), AW(A1), AW(A1.copy()), AW(np.array([1.0, 2.0, 3.0])),
+          PCW(2.0), PAW(np.array([2.0, 2.0])), PAW(np.array([2.0, 2.0])), PCW(1.0, exponent=1.0)]
+    for i, w in enumerate(ws):
+        for j, v in enumerate(ws):
+            def eqv():
+                a, b = w.equiv(v), v.equiv(w)
+                if bool(a) != bool(b):
+                    return 'not symmetric: {} / {}'.format(a, b)
+                if (w == v) and not a:
+                    return '== but not equiv'
+                if i == j and not a:
+                    return 'not reflexive'
+                return True
+            _api(ctx, 'weighting-equiv/' + cls(w), eqv, '{!r}.equiv({!r})'.format(w, v),
+                 {'space': repr(w), 'x': repr(v)})
+    _api(ctx, 'weighting-equiv/const-vs-full-array', lambda: bool(CW(2.0).equiv(AW(A1))) and
+         bool(AW(A1).equiv(CW(2.0))) and not CW(3.0).equiv(AW(A1)) and not CW(2.0).equiv(5) and
+         bool(AW(A1).equiv(AW(A1.copy()))) and not AW(A1).equiv(AW(np.array([2.0, 2.0, 1.0]))),
+         'a constant weighting is equivalent to the array weighting with that constant')
+
+    # ---- H..N: elements of spaces
+    for sn, S in api_spaces():
+        rep = {'space': sn}
+        kind = cls(S)
+        x = _rand_elem(S, rng)
+        S2 = rebuild(S) if not sn.endswith('W') else S
+        num = all(np.dtype(c.dtype).kind in 'fc' for c in _leaves(S))
+
+        def elem_eq():
+            y = x.copy()
+            if y is x or y not in S or not (x == y) or (x != y) or not (y == x):
+                return 'copy is not an equal element of the space'
+            z = x.copy()
+            flat = _flat(z)
+            z2 = S.element(_perturbed(S, x))
+            if (x == z2) or not (x != z2) or (z2 == x):
+                return 'element with one changed value compares equal'
+            if S2 is not S and S2 == S:
+                w = S2.element(x)
+                if not (w == x and x == w):
+                    return 'equal values in an equal space compare unequal'
+            if x == flat.tolist() or x == None or x == S:  # noqa
+                return 'equal to a non-element'
+            return bool(x == x)
+        _api(ctx, 'element-eq/' + kind, elem_eq, 'element equality in ' + sn, rep)
+
+        def zero_one():
+            z, o = S.zero(), S.one()
+            return z in S and o in S and not np.any(_flat(z)) and bool(np.all(_flat(o) == 1)) and \
+                (z == S.zero()) and not (z == o)
+        _api(ctx, 'zero-one/' + kind, zero_one, 'zero() / one() of ' + sn, rep)
+
+        def pow_mul():
+            n = rng.choice([1, 2, 3])
+            P1, P2 = S ** n, odl.ProductSpace(S, n)
+            if not (P1 == P2 and hash(P1) == hash(P2) and len(P1) == n and P1[0] is S):
+                return '** {} differs from ProductSpace(S, {})'.format(n, n)
+            Q1, Q2 = S ** (2, 3), odl.ProductSpace(odl.ProductSpace(S, 2), 3)
+            if not (Q1 == Q2 and hash(Q1) == hash(Q2)):
+                return '** (2, 3) differs'
+            T = odl.cn(2) if S.is_complex else odl.rn(2)
+            R1, R2 = S * T, odl.ProductSpace(S, T)
+            return R1 == R2 and hash(R1) == hash(R2) and (S.zero() in P1[0]) and \
+                P1.element([x] * n) in P2
+        _api(ctx, 'pow-mul/' + kind, pow_mul, 'S ** n, S * T for ' + sn, rep)
+        if num:
+            for dt in (() if isinstance(S, odl.ProductSpace) else
+                       ('float64', 'complex128') if sn.endswith('W') else ('float32', 'complex128')):
+                if np.dtype(dt).kind == 'f' and any(np.dtype(c.dtype).kind == 'c' for c in _leaves(S)):
+                    continue
+
+                def el_astype():
+                    y = x.astype(dt)
+                    T = S.astype(dt)
+                    if y not in T:
+                        return 'x.astype({}) lies in {!r}, not in space.astype = {!r}'.format(
+                            dt, y.space, T)
+                    return bool(np.array_equal(_flat(y), _flat(x).astype(dt)))
+                _api(ctx, 'element-astype/' + kind, el_astype, 'x.astype({}) for x in {}'.format(dt, sn),
+                     dict(rep, dtype=dt))
+
+            def real_imag_conj():
+                R = S.real_space
+                re, im, cj = x.real, x.imag, x.conj()
+                f = _flat(x)
+                if re not in R or im not in R:
+                    return 'real / imag not in real_space (in {!r})'.format(re.space)
+                if cj not in S:
+                    return 'conj not in the space'
+                return bool(np.array_equal(_flat(re), f.real) and np.array_equal(_flat(im), f.imag)
+                            and np.array_equal(_flat(cj), f.conj()))
+            _api(ctx, 'element-real-imag-conj/' + kind, real_imag_conj,
+                 'x.real, x.imag, x.conj() for x in ' + sn, rep)
+        if isinstance(S, odl.ProductSpace):
+            _api(ctx, 'pspace-attributes', lambda: S.is_weighted == (not (S.weighting == (S ** 1)[0].__class__ and False) and
+                 S.weighting != odl.ProductSpace(*S.spaces).weighting) and
+                 S.is_real == all(c.is_real for c in S.spaces) and
+                 S.is_complex == all(c.is_complex for c in S.spaces) and
+                 S.exponent == S.weighting.exponent and x.ndim == len(x.shape) and
+                 x.size == int(np.prod(x.shape)) if S.is_power_space else True,
+                 'is_weighted / is_real / is_complex / exponent of ' + sn, rep)
+        if isinstance(S, odl.DiscretizedSpace):
+            _api(ctx, 'discr-attributes', lambda: S.tangent_bundle == S ** S.ndim and
+                 S.grid == S.partition.grid and S.is_weighted == S.tspace.is_weighted and
+                 len(x) == S.shape[0] and x.data is x.tensor.data and
+                 np.array_equal(S.cell_sides, S.partition.cell_sides) and
+                 x.cell_volume == S.cell_volume,
+                 'tangent_bundle / grid / is_weighted of ' + sn, rep)
+    for vals in ([1, 2, 3], [1.5, 2], [1, 2j], [[1, 2], [3, 4]], [True, False]):
+        def vec():
+            v = odl.vector(vals)
+            a = np.asarray(vals)
+            return v in v.space and v.shape == a.shape and np.dtype(v.dtype).kind == a.dtype.kind and \
+                bool(np.array_equal(v.asarray(), a)) and \
+                v.space == odl.tensor_space(a.shape, dtype=v.dtype)
+        _api(ctx, 'vector', vec, 'odl.vector({!r})'.format(vals), {'input': repr(vals)})
+    # power-space element offered to a tensor space of the stacked shape (since /repo 7818edc)
+    for dt in ('float64', 'float32'):
+        P = odl.ProductSpace(odl.rn(3), 2)
+        px = _rand_elem(P, rng)
+        T = odl.rn((2, 3), dtype=dt)
+        lines = ['element S={} inp={} forced=0'.format(describe_space(T, Reg()), describe_inp(px, Reg(), T))]
+
+        def stacked():
+            y = T.element(px)
+            return y in T and bool(np.array_equal(y.asarray(), px.asarray().astype(dt))) and \
+                core.run_driver('C20', lines)[0] == 'ok ' + canon_result(y, px)
+        _api(ctx, 'element-from-power-space-element', stacked,
+             'rn((2,3), {}).element(element of rn(3)^2)'.format(dt), {'dtype': dt})
+
+
+def _perturbed(S, x):
+    """nested list / array of the values of x with the first entry changed"""
+    import odl
+    if isinstance(S, odl.ProductSpace):
+        return [_perturbed(S[0], x[0])] + [x[i] for i in range(1, len(S))]
+    a = np.array(x.asarray())
+    a.flat[0] = a.flat[0] + 1
+    return a
+
+
 def regenerate(ctx):
     from extract import dtypes as extract_dtypes
     changed = extract_dtypes.regenerate()
@@ -3196,6 +3721,7 @@ def run_all(ctx):
     run_element_options(ctx)
     run_history(ctx)
     run_set_membership(ctx)
+    run_api_strata(ctx)
 
 
 def run(ctx):
@@ -3226,6 +3752,7 @@ def search(ctx, broken):
         run_history(sub)
         try:
             run_set_membership(sub)
+            run_api_strata(sub)
         except core.DriverBroken:
             pass
         for v in sub.violations:
@@ -3259,6 +3786,7 @@ def replay(ctx, case):
         run_history(sub)
         try:
             run_set_membership(sub)
+            run_api_strata(sub)
         except core.DriverBroken:
             pass
         keep = [v for v in sub.violations
